@@ -91,7 +91,13 @@ def k1_form(cname, g, u, out):
 def case_product(rec, c):
     """One closure object, one sigma: the full (position x gamma x u) product in one array."""
     cname, alias, hc, sigma = c['closure'], c['alias'], c['hc'], c['sigma']
-    C = make(cname, alias, hc, c.get('flagrepr', 'bool'))
+    try:
+        C = make(cname, alias, hc, c.get('flagrepr', 'bool'))
+    except (TypeError, ValueError):
+        if c.get('flagrepr', 'bool') != 'bool':
+            rec.count('flag_spelling_rejected')      # refusing a non-bool spelling is fine; silently ignoring it is not
+            return
+        raise
     pos = positions(sigma)
     combos = list(itertools.product(range(len(pos)), GAMMAS, US))
     r = np.array([pos[p][1] for p, _, _ in combos])
